@@ -40,7 +40,7 @@ def grid(R, tier, seed):
     for f in F.fns.values():
         if f.impl_of and f.impl_of.get("trait") and f.impl_of["trait"].endswith("rust_cc::Trace") and f.npath.endswith("::trace"):
             by_self[f.impl_of["self_ty"].split("<")[0]] = f
-    leaf_fns = {g.npath for g in F.fns.values() if g.impl_of and g.impl_of.get("self_ty") == "L"}
+    leaf_fns = {g.npath for g in F.fns.values() if (g.impl_of and g.impl_of.get("self_ty") in ("L", "Shadow")) or g.npath.startswith("Shadow::")}
     n = 0
     for pr in probes:
         f = by_self.get(pr.name)
@@ -85,7 +85,7 @@ def grid(R, tier, seed):
         R.inst("R18.1", "probe:%s" % _shape(pr), not probs, "%s\n  -> %s" % (pr.source().replace("\n", " "), probs or "generated trace visits exactly the non-ignored fields, once each"), cfg="grid", nontrivial=any(exp.values()))
     R.floor("R18.1", "grid", 40, n)
     # derived Finalize impls: no finalize item, one per probe
-    fin = [i for i in F.impls if i.get("trait") and i["trait"].endswith("rust_cc::Finalize") and i["self_ty"].split("<")[0] != "L"]
+    fin = [i for i in F.impls if i.get("trait") and i["trait"].endswith("rust_cc::Finalize") and i["self_ty"].split("<")[0] not in ("L", "Shadow")]
     bad = [i["self_ty"] for i in fin if i["items"]]
     R.inst("R18.1", "derived-finalize-empty", not bad and len(fin) == len(probes), "%d derived Finalize impls for %d probes; impls with items: %s" % (len(fin), len(probes), bad or "none"), cfg="grid")
     # the generated Drop impls are empty
